@@ -1,7 +1,7 @@
 (* C15_Props.v — the property theorems of C15 and nothing else.
    Each is closed by `exact <lemma>` and followed by Print Assumptions. *)
 From Coq Require Import Permutation.
-From V Require Import C15_Spec C15_SpecL3 C15_Proofs C15_ProofsL3 C15_ProofsL3b.
+From V Require Import C15_Spec C15_SpecL2 C15_SpecL3 C15_Proofs C15_ProofsL2b C15_ProofsL3 C15_ProofsL3b.
 Open Scope N_scope.
 
 (* ---- L1: transparency.  Whatever state the tracer is in (any conn value, reachable or not), whatever
@@ -53,6 +53,21 @@ Theorem broken_absorbing : forall dec st chunks,
   f_broken st = true -> ft_feed dec st chunks = (st, []).
 Proof. exact broken_absorbing_proof. Qed.
 Print Assumptions broken_absorbing.
+
+(* ---- L2 against an independent one-shot specification.  `spec_frames` (C15_SpecL2, from RFC 9113 4.1/3.4/6.10) is a
+   function of the direction's whole byte stream: after the 24-byte client preface on the request direction, cut it
+   into raw frames by the 9-byte header's length field (`split_frames`; an incomplete frame at the end is no frame),
+   join HEADERS + CONTINUATIONs up to END_HEADERS, hand each unit to the framer (`parse_buf`), stop at the first
+   rejection.  For ALL byte streams and ANY decoder the tracer emits exactly these frames - and so, for ALL partitions
+   into Read/Write chunks too. *)
+Theorem frames_are_split_frames : forall dec isreq s, one_shot dec isreq s = spec_frames dec isreq s.
+Proof. exact frames_are_split_frames_proof. Qed.
+Print Assumptions frames_are_split_frames.
+
+Theorem chunks_are_split_frames : forall dec isreq chunks,
+  snd (ft_feed dec (ft_init isreq) chunks) = spec_frames dec isreq (concat chunks).
+Proof. exact chunks_are_split_frames_proof. Qed.
+Print Assumptions chunks_are_split_frames.
 
 (* ---- L1/L3: never crashes.  For ANY op list (any bytes, cut anyhow into Reads and Writes, any inner-conn
    errors, short writes, Close, timer expiry), any HPACK decoders, client or server side: the run exists (no nil
@@ -358,3 +373,11 @@ Example ex_bytes_with_eof :
   | None => False
   end.
 Proof. vm_compute. split; reflexivity. Qed.
+(* the one-shot spec on the request direction: preface, a HEADERS+CONTINUATION block, a frame cut short at the end *)
+Example ex_spec_frames :
+  spec_frames ex_dec true (preface ++ [0; 0; 1; 1; 1; 0; 0; 0; 1; 97] ++ [0; 0; 1; 9; 4; 0; 0; 0; 1; 98] ++ [0; 0; 5; 0; 0; 0]) =
+  [FHeaders 1 true [(bs ":method", bs "POST"); (bs ":path", bs "/s/M"); (bs "x-test-case-name", [97; 98])]] /\
+  split_frames 30 ([0; 0; 1; 1; 1; 0; 0; 0; 1; 97] ++ [0; 0; 0; 4; 1; 0; 0; 0; 0] ++ [0; 0; 5; 0]) =
+  [[0; 0; 1; 1; 1; 0; 0; 0; 1; 97]; [0; 0; 0; 4; 1; 0; 0; 0; 0]] /\
+  spec_frames ex_dec true (bs "GET / HTTP/1.1" ++ preface) = [].
+Proof. vm_compute. repeat split. Qed.
